@@ -165,6 +165,7 @@ bool g_thr_done[8] = {};
 bool g_free_run = false;        // schedule exhausted: remaining threads run freely (recorded as a divergence)
 thread_local int tl_me = -1;
 unsigned g_fin_ctx[8] = {};
+unsigned g_start_ctx[8] = {};
 
 bool my_turn(int me) { return g_free_run || (g_ctx < g_sched.size() && (int) g_sched[g_ctx].t == me); }
 void next_ctx_locked() {
@@ -181,6 +182,7 @@ void* thr_main(void* arg) {
     {
         std::unique_lock<std::mutex> lk(g_mu);
         g_cv.wait(lk, [me] { return my_turn(me); });
+        g_start_ctx[me] = (unsigned) g_ctx;
     }
     g_thr_fn[me]();
     {
@@ -224,6 +226,7 @@ extern "C" void yk_thread(std::uint32_t i, void (*fn)()) {
 extern "C" void yk_allow_ctx(std::uint32_t, std::uint32_t) {}
 extern "C" std::uint32_t yk_thread_done(std::uint32_t i) { return i < 8 && g_thr_done[i] ? 1 : 0; }
 extern "C" std::uint32_t yk_ctx_of_finish(std::uint32_t i) { return i < 8 ? g_fin_ctx[i] : 0; }
+extern "C" std::uint32_t yk_ctx_of_start(std::uint32_t i) { return i < 8 ? g_start_ctx[i] : 0; }
 extern "C" void yk_run_threads(std::uint32_t) {
     pthread_t th[8];
     g_ctx = 0;
